@@ -49,6 +49,10 @@ CHECKS = {
          "Generated request sequences mixing valid requests (queries, ingestion, force_flush, table_stats, mem_tree, restart) with a catalogue of failing ones (parse errors, type errors, unsupported constructs, overflow, unknown table, LIMIT/OFFSET edge cases, invalid regex, constant-only select items, queries that panic inside the engine), issued from 1-3 client threads against 1-4 workers, memory-only and on disk. Every call must return within the deadline; after every request a canary (model-checked counts, a tiny ingest, table_stats) must succeed, and at the end workers+1 concurrent queries, an ingest and a force_flush must complete.",
          "DESIGN.md 4 C11", "Schedules are whatever the OS produces for the client threads (no schedule control): interleavings inside the engine are sampled, not enumerated. A hang is judged by the call deadline plus a process-quiescence test.",
          "property-based testing (proptest) over request sequences with fault-style inputs; canary invariant oracle"),
+ "C12": ("exploration",
+         "Generated query strings against a small fixed database: grammar-generated statements of the supported subset (random nesting, three quoting styles, aliases, numeric literal forms incl. beyond u64), a catalogue of unsupported constructs the SQL parser accepts, and token- and byte-level mutations of valid statements. The call must return (no caller panic, no hang, no Canceled); an Ok result must have one column per select item in select-list order under the written name or alias (derived with the SQL parser), equally long columns, a row view describing the same cells as the column view, at most LIMIT rows; an unknown table must give an error.",
+         "DESIGN.md 4 C12", "The expected names are derived by parsing the text with the same SQL parser crate the engine uses (what the text says), not from the engine's own conversion code; an engine-internal panic that reaches the caller as an error value counts as an error value.",
+         "grammar-based and mutation-based fuzzing driven by proptest, well-formedness (validity predicate) oracle"),
 }
 
 NOT_YET = {
